@@ -63,7 +63,34 @@ def known_signatures(prop: str) -> dict[str, str]:
     }
 
 
-def run_subcheck(sub, ctx, known, tier):
+class CaseTimeout(BaseException):
+    pass
+
+
+CASE_TIMEOUT_S = int(os.environ.get("VERIF_CASE_TIMEOUT_S", "300"))
+
+
+class case_watchdog:
+    """SIGALRM around one case: a director that spins for ever must not stall the whole check."""
+
+    def __enter__(self):
+        import signal
+
+        def on_alarm(signum, frame):
+            raise CaseTimeout()
+
+        self.old = signal.signal(signal.SIGALRM, on_alarm)
+        signal.alarm(CASE_TIMEOUT_S)
+
+    def __exit__(self, *exc):
+        import signal
+
+        signal.alarm(0)
+        signal.signal(signal.SIGALRM, self.old)
+        return False
+
+
+def run_subcheck(sub, ctx, known, tier, checkpoint=None):
     """Run one sub-check; returns (recorder dict, failures)."""
     from hypothesis import HealthCheck, Phase, given, seed, settings
 
@@ -75,8 +102,16 @@ def run_subcheck(sub, ctx, known, tier):
     def guarded(case):
         state["last"] = case
         rec.evaluations += 1
+        if checkpoint is not None:
+            checkpoint(rec, failures)
         try:
-            call_check(sub, case, rec, ctx)
+            with case_watchdog():
+                call_check(sub, case, rec, ctx)
+        except CaseTimeout:
+            # Inconclusive, never a violation: counted, reported by the runner (exit 2 unless a
+            # violation was found elsewhere), and the search goes on.
+            rec.extra["case_timeouts"] = rec.extra.get("case_timeouts", 0) + 1
+            os.chdir(ctx.scratch.root)
         except Violation as v:
             if v.signature in known:
                 rec.known_hits[v.signature] = rec.known_hits.get(v.signature, 0) + 1
@@ -194,6 +229,7 @@ def main(argv=None):
     t0 = time.time()
     result = {"worker": args.worker, "subchecks": {}, "failures": [], "error": None}
     ctx = Ctx(args.prop, args.tier, args.seed, args.worker, args.nworkers)
+    last_partial = [0.0, 0]
     try:
         mod = load_module(args.prop)
         known = known_signatures(args.prop)
@@ -208,11 +244,32 @@ def main(argv=None):
             if sub.seed_salt == 0:
                 sub.seed_salt = (i + 1) * 7919
             t1 = time.time()
-            rec, failures = run_subcheck(sub, ctx, known, args.tier)
+            done_failures = list(result["failures"])
+
+            def checkpoint(rec, failures, name=sub.name, t1=t1, done_failures=done_failures):
+                # heartbeat for the runner's stall detection, and a partial result every few
+                # seconds so that a worker killed in a non-terminating case loses nothing
+                now = time.time()
+                with open(args.out + ".hb", "w"):
+                    pass
+                if now - last_partial[0] < 5.0 and len(failures) == last_partial[1]:
+                    return
+                last_partial[0] = now
+                last_partial[1] = len(failures)
+                d = rec.to_dict()
+                d["wall_s"] = now - t1
+                result["subchecks"][name] = d
+                result["failures"] = done_failures + list(failures)
+                tmp = args.out + ".partial.tmp"
+                with open(tmp, "w") as fh:
+                    json.dump(result, fh)
+                os.replace(tmp, args.out + ".partial")
+
+            rec, failures = run_subcheck(sub, ctx, known, args.tier, checkpoint)
             d = rec.to_dict()
             d["wall_s"] = time.time() - t1
             result["subchecks"][sub.name] = d
-            result["failures"].extend(failures)
+            result["failures"] = done_failures + list(failures)
     except HarnessError as exc:
         result["error"] = f"HarnessError: {exc}\n{traceback.format_exc()}"
     except BaseException as exc:  # noqa: BLE001 - reported as harness error, never as a pass
